@@ -6,8 +6,9 @@ Two configurations, chosen per run by the seed:
   ThreadSafeLRUCache, every return value / exception and the full MRU->LRU
   listing compared with ModelLRU after every operation.
 * ``conc`` - 2..16 simulated threads on one ThreadSafeLRUCache under the baton
-  scheduler (pre-emption at every line of liquid/utils/lru_cache.py and at
-  every lock operation; listings consumed one ``next()`` per quantum).
+  scheduler (pre-emption at every line - or, in half of the runs, every bytecode
+  instruction - of liquid/utils/lru_cache.py and at every lock operation; listings
+  consumed one ``next()`` per quantum).
   Oracles: never fails, capacity invariant whenever the lock is free, no
   deadlock, linearizability of the invoke/return history against ModelLRU
   (a listing linearises as one atomic snapshot between its invocation and its
@@ -177,7 +178,7 @@ class C24:
     PROP = "C24"
     LEVEL = "exploration"
     TIERS = {
-        "quick": {"runs": 24000, "budget_s": 45, "chunk": 200, "determinism_runs": 48},
+        "quick": {"runs": 24000, "budget_s": 40, "chunk": 60, "determinism_runs": 48},
         "thorough": {"runs": 2400000, "budget_s": 600, "chunk": 400, "determinism_runs": 256,
                      "minimise_s": 90},
     }
@@ -199,7 +200,7 @@ class C24:
     }
     ASSUMPTIONS = [
         "C-level OrderedDict operations are atomic (true under the GIL; free-threaded CPython is out of scope)",
-        "pre-emption is possible only at Python line boundaries inside lru_cache.py and at lock operations",
+        "pre-emption happens at every bytecode instruction (half of the runs) or every line boundary (the other half) of lru_cache.py and at lock operations; never inside a C call",
         "a listing may linearise anywhere between its invocation and its last next()",
     ]
     REQUIRED_REACH = ["reach.seq.evict", "reach.conc.switch_inside_op", "reach.conc.lock_contended",
@@ -238,11 +239,16 @@ class C24:
         prefill = [self._gen_op(rng, nkeys, ("p", i), "write-only") for i in range(rng.randint(0, 4))]
         return {"config": "conc", "capacity": cap, "threads": threads, "prefill": prefill,
                 "switch_p": rng.choice([0.05, 0.3, 0.7, 1.0]),
-                "sched_seed": rng.randrange(1 << 30)}
+                "sched_seed": rng.randrange(1 << 30),
+                "granularity": rng.choice(["line", "opcode"])}
 
     def _gen_op(self, rng, nkeys, tag, profile="mixed"):
         k = rng.randrange(nkeys)
         val = "v%s.%s" % tag
+        if rng.chance(0.08):
+            # falsy values are values like any other ("returns the most recently stored value for a
+            # present key"): None, 0, "", False and 0.0 must come back, not the default
+            val = rng.choice([None, 0, "", False, 0.0])
         if profile == "write-only":
             return ["set", k, val]
         table = {
@@ -353,7 +359,8 @@ class C24:
                     inv_bad.append({"len": len(od), "capacity": cap, "site": site, "seq": sim.seq})
 
         sim = SimThreads(rng, switch_p=sc["switch_p"], trace_files=("liquid/utils/lru_cache.py",),
-                         step_cap=40000, on_point=on_point)
+                         step_cap=200000, on_point=on_point, granularity=sc.get("granularity", "line"))
+        bump(st, "conc.granularity." + sc.get("granularity", "line"))
         saved = lru_mod.Lock
         lru_mod.Lock = SimLock
         SimLock.sim = None
